@@ -15,6 +15,7 @@ func init() {
 		Entries: []Entry{
 			{PkgPath: fsPkg, Func: "verifC13Leftover", Opt: big, Replay: "model"},
 			{PkgPath: fsPkg, Func: "verifC13CrashPoints", Opt: big, Replay: "model"},
+			{PkgPath: fsPkg, Func: "verifC13CrashWithLeftover", Opt: big, Replay: "model"},
 			{PkgPath: fsPkg, Func: "verifC13Faults", Opt: big, Replay: "model"},
 			{PkgPath: fsPkg, Func: "verifC13ShortWrites", Opt: big, Replay: "model"},
 			{PkgPath: fsPkg, Func: "verifC13Disjoint", Opt: big},
@@ -22,7 +23,7 @@ func init() {
 			{PkgPath: fsPkg, Func: "verifC13PlantedLeftover", Opt: big},
 			{PkgPath: fsPkg, Func: "verifC13Mem", Opt: big},
 		},
-		Covers: []string{"c13/leftover", "c13/crashpoints", "c13/faults", "c13/shortwrite", "c13/disjoint", "c13/samename", "c13/mem", "c13/planted-leftover"},
+		Covers: []string{"c13/leftover", "c13/crashpoints", "c13/faults", "c13/shortwrite", "c13/disjoint", "c13/samename", "c13/mem", "c13/planted-leftover", "c13/leftover-crash"},
 		Bounds: "data ≤ 2 bytes, previous content ≤ 3 bytes, leftovers = every state reachable by crashing an earlier AtomicCreate (data ≤ 3 bytes, any of 2×2 dir/name pairs) at any of its syscalls with any durable prefix; crash point = any syscall of the call; faults = each single failing syscall; path disjointness also for names of 251 and 252 bytes with a common prefix (NAME_MAX is modelled); short writes: data of 3–5 bytes with write(2) transferring any non-empty prefix each time; all byte values symbolic. Concurrent creators: not explored by a scheduler in this tier, replaced by path-disjointness of the kernel paths the two calls touch.",
 		Assumptions: []string{
 			"crash model: namespace operations are persisted in order (a prefix survives), file data only through fsync of that file (otherwise a prefix of the pending writes survives)",
